@@ -2053,7 +2053,8 @@ def transform_around(matrix, point):
     ---------
     result: (4,4) transformation matrix
     """
-    point = np.asanyarray(point)
+    # as float: `-point` wraps around for unsigned integer dtypes
+    point = np.asanyarray(point, dtype=np.float64)
     matrix = np.asanyarray(matrix)
     dim = len(point)
     if matrix.shape != (dim + 1, dim + 1):
